@@ -102,6 +102,7 @@ func C04(c *Ctx) {
 	R6Issue(c)
 	// a queued relay task keeps its bytes until it is serialised: the chunk must be private to the task
 	R15PrivateChunk(c)
+	R4ReplyIsBatch(c)
 }
 
 func C16(c *Ctx) {
@@ -109,6 +110,7 @@ func C16(c *Ctx) {
 	R1DownScanFirst(c)
 	R12Registry(c)
 	R12NameOfKind(c)
+	R12ExistAllKinds(c)
 	R12RemoveWrites(c)
 	R12StartBeforeRegister(c)
 	R12OwnerEndpoints(c)
@@ -231,6 +233,7 @@ func C02(c *Ctx) {
 	R8Terminators(c)
 	R8Pivot(c)
 	R14Commands(c)
+	R4ReplyIsBatch(c)
 	R8UTF16Encoder(c)
 	R8SizeField(c)
 	R8UnwrittenElement(c)
@@ -323,6 +326,7 @@ func C09(c *Ctx) {
 	R9CycleGuard(c)
 	R9MoveUnlinks(c)
 	R9ParentAfterUnlink(c)
+	R9DeadDetaches(c)
 	R9UnlinkTarget(c)
 	R5RangeMut(c, func(fn string) bool {
 		return strings.Contains(fn, "UnlinkFromAll") || strings.Contains(fn, "LinkRemove") || strings.Contains(fn, "TaskDispatch") || strings.Contains(fn, "Died")
@@ -347,6 +351,7 @@ func C20(c *Ctx) {
 	R20NumberExact(c)
 	R20PassOrder(c)
 	R20EscapeSiblings(c)
+	R20ListEnds(c)
 }
 
 func C17(c *Ctx) {
